@@ -24,8 +24,10 @@
    MODEL GAPS (stated, excluded from the generators, see evidence assumptions):
    * an integer literal in [2^63, 2^64) at a DefaultValue position is Float(z as f64) in serde; the
      model has no float arithmetic and rejects it;
-   * owned ContentDeserializer additionally reads an *empty object* as unit ({"cascade": {}} below a
-     tagged enum); not modelled. *)
+   (the difference between the owned ContentDeserializer, which reads an *empty object* as unit, and
+   ContentRefDeserializer / JSON text, which do not, is modelled: [d_unit_enum true] is used exactly
+   where a unit-variant enum is a direct field of an internally tagged variant, i.e. for
+   ReferenceAction inside TableConstraint::ForeignKey.) *)
 From VV.SERDE Require Export Json.
 
 Inductive ctx := FromText | FromContent.
@@ -81,10 +83,13 @@ Fixpoint lookup_name {A} (s : string) (tbl : list (string * A)) : option A :=
   | [] => None
   | (n, v) :: r => if String.eqb s n then Some v else lookup_name s r
   end.
-Definition d_unit_enum {A} (tbl : list (string * A)) : dec A := fun j =>
+(* [owned] = read from an owned ContentDeserializer (serde private/de.rs:1301-1319: an empty map is
+   accepted as unit), as opposed to JSON text or ContentRefDeserializer (de.rs:2266-2274) *)
+Definition d_unit_enum {A} (owned : bool) (tbl : list (string * A)) : dec A := fun j =>
   match j with
   | JStr s => lookup_name s tbl
   | JObj [(s, JNull)] => lookup_name s tbl
+  | JObj [(s, JObj [])] => if owned then lookup_name s tbl else None
   | _ => None
   end.
 
@@ -168,7 +173,7 @@ Definition all_simple : list simple_type :=
    Timestamptz; Interval; Bytea; Uuid; Json; Inet; Cidr; Macaddr; Xml].
 Definition simple_table := map (fun s => (simple_name s, s)) all_simple.
 Definition e_simple (s : simple_type) : json := JStr (simple_name s).
-Definition d_simple : dec simple_type := d_unit_enum simple_table.
+Definition d_simple : dec simple_type := d_unit_enum false simple_table.
 
 (* ReferenceAction (reference.rs) *)
 Definition ref_action_name (a : ref_action) : string :=
@@ -179,7 +184,8 @@ Definition ref_action_name (a : ref_action) : string :=
 Definition ref_action_table :=
   map (fun a => (ref_action_name a, a)) [Cascade; Restrict; SetNull; SetDefault; NoAction].
 Definition e_ref_action (a : ref_action) : json := JStr (ref_action_name a).
-Definition d_ref_action : dec ref_action := d_unit_enum ref_action_table.
+Definition d_ref_action : dec ref_action := d_unit_enum false ref_action_table.
+Definition d_ref_action_owned : dec ref_action := d_unit_enum true ref_action_table.
 
 (* NumValue, EnumValues (untagged: String(Vec<String>) then Integer(Vec<NumValue>)) *)
 Definition num_fields : fields := [("name", Req); ("value", Req)].
@@ -337,8 +343,8 @@ Definition constraint_variants : list (variant table_constraint) :=
       fun r => match r with
                | [n; c; t; rc; d; u] =>
                    n <- opt d_string n ;; c <- req (d_vec d_string) c ;; t <- req d_string t ;;
-                   rc <- req (d_vec d_string) rc ;; d <- opt d_ref_action d ;; u <- opt d_ref_action u ;;
-                   Some (CForeignKey n c t rc d u)
+                   rc <- req (d_vec d_string) rc ;; d <- opt d_ref_action_owned d ;;
+                   u <- opt d_ref_action_owned u ;; Some (CForeignKey n c t rc d u)
                | _ => None end));
    ("check", ([("name", Req); ("expr", Req)],
       fun r => match r with
